@@ -91,6 +91,10 @@ type Cert struct {
 	Freshest []string // freshest-CRL extension of the certificate
 
 	IssuerCN *string // override of the issuer name (default: parent's subject)
+	// SubjectDER / IssuerDER, if set, are the exact DER of the subject / issuer
+	// Name (attribute order, RDN grouping and string types as written)
+	SubjectDER []byte
+	IssuerDER  []byte
 	SignedBy *Key    // override of the signing key (default: parent's key)
 
 	Extra  []pkix.Extension
@@ -307,6 +311,16 @@ func Issue(c *Cert, parent *x509.Certificate, parentKey *Key) (*x509.Certificate
 		par = tmpl
 		signKey = c.Key
 	}
+	if c.SubjectDER != nil {
+		tmpl.RawSubject = c.SubjectDER
+	}
+	if c.IssuerDER != nil {
+		ski := tmpl.SubjectKeyId
+		if parent != nil {
+			ski = parent.SubjectKeyId
+		}
+		par = &x509.Certificate{RawSubject: c.IssuerDER, SubjectKeyId: ski}
+	}
 	if c.IssuerCN != nil {
 		par = &x509.Certificate{Subject: pkix.Name{CommonName: *c.IssuerCN}}
 		if c.SignedBy != nil {
@@ -463,3 +477,45 @@ func RelabelSignature(c *x509.Certificate) (*x509.Certificate, error) {
 	}
 	return x509.ParseCertificate(der)
 }
+
+
+// ATV is one attribute of a distinguished name: OID, value and the ASN.1
+// string tag it is written with (12 UTF8String, 19 PrintableString, 22 IA5String).
+type ATV struct {
+	OID   asn1.ObjectIdentifier
+	Value string
+	Tag   int
+}
+
+var (
+	OIDCN = asn1.ObjectIdentifier{2, 5, 4, 3}
+	OIDO  = asn1.ObjectIdentifier{2, 5, 4, 10}
+	OIDOU = asn1.ObjectIdentifier{2, 5, 4, 11}
+	OIDC  = asn1.ObjectIdentifier{2, 5, 4, 6}
+)
+
+// NameDER encodes a distinguished name exactly as given: one RDN (SET) per
+// group, in the given order.
+func NameDER(groups ...[]ATV) []byte {
+	var b cryptobyte.Builder
+	b.AddASN1(cbasn1.SEQUENCE, func(b *cryptobyte.Builder) {
+		for _, g := range groups {
+			b.AddASN1(cbasn1.SET, func(b *cryptobyte.Builder) {
+				for _, a := range g {
+					b.AddASN1(cbasn1.SEQUENCE, func(b *cryptobyte.Builder) {
+						b.AddASN1ObjectIdentifier(a.OID)
+						tag := a.Tag
+						if tag == 0 {
+							tag = 12
+						}
+						b.AddASN1(cbasn1.Tag(tag), func(b *cryptobyte.Builder) { b.AddBytes([]byte(a.Value)) })
+					})
+				}
+			})
+		}
+	})
+	return b.BytesOrPanic()
+}
+
+// EKUOID returns the object identifier of a known extended key usage.
+func EKUOID(e x509.ExtKeyUsage) asn1.ObjectIdentifier { return ekuOIDs[e] }
